@@ -24,48 +24,41 @@ func modelFormatArg(verb byte, a any) string {
 	if verb == 'T' {
 		return verifx_typeName(a)
 	}
-	switch v := a.(type) {
-	case nil:
+	if a == nil {
 		return "<nil>"
-	case string:
-		if verb == 'q' {
-			return "\"" + v + "\""
+	}
+	// fmt's order: error, then Stringer, then the value's kind
+	if verb != 'd' && verb != 'c' && verb != 'x' {
+		switch v := a.(type) {
+		case error:
+			if verb == 'q' {
+				return "\"" + v.Error() + "\""
+			}
+			return v.Error()
+		case modelStringer:
+			if verb == 'q' {
+				return "\"" + v.String() + "\""
+			}
+			return v.String()
 		}
-		return v
-	case error:
+	}
+	if b, ok := a.([]byte); ok {
+		return string(b)
+	}
+	kind, sv, iv := verifx_basic(a)
+	switch kind {
+	case 1:
 		if verb == 'q' {
-			return "\"" + v.Error() + "\""
+			return "\"" + sv + "\""
 		}
-		return v.Error()
-	case modelStringer:
-		if verb == 'q' {
-			return "\"" + v.String() + "\""
-		}
-		return v.String()
-	case []byte:
-		return string(v)
-	case int:
-		return verifx_itoa(int64(v))
-	case int64:
-		return verifx_itoa(v)
-	case int32:
+		return sv
+	case 2:
 		if verb == 'c' || verb == 'q' {
-			return string(rune(v))
+			return string(rune(iv))
 		}
-		return verifx_itoa(int64(v))
-	case uint8:
-		if verb == 'c' {
-			return string(rune(v))
-		}
-		return verifx_itoa(int64(v))
-	case uint64:
-		return verifx_itoa(int64(v))
-	case uint32:
-		return verifx_itoa(int64(v))
-	case uint:
-		return verifx_itoa(int64(v))
-	case bool:
-		if v {
+		return verifx_itoa(iv)
+	case 3:
+		if iv != 0 {
 			return "true"
 		}
 		return "false"
